@@ -830,9 +830,11 @@ func (s *TreeShapeListener) ExitTable(ctx *parser.TableContext) {
 			}
 		}
 		if len(pks) > 0 {
-			rel.PrimaryKey = &sysl.Type_Relation_Key{
-				AttrName: pks,
+			// a table declared over several blocks keeps the key columns of its earlier blocks
+			if rel.PrimaryKey == nil {
+				rel.PrimaryKey = &sysl.Type_Relation_Key{}
 			}
+			rel.PrimaryKey.AttrName = append(rel.PrimaryKey.AttrName, pks...)
 		}
 	}
 	s.popScope()
